@@ -138,9 +138,9 @@ func (b *Bench) Execute(id int, s *Scenario) (*Exec, error) {
 	if !abs.CreateErr {
 		create = "(Some " + coqgen.Bytes(abs.CreateID) + ")"
 	}
-	coq := fmt.Sprintf("{| k_id := %s; k_form := %s; k_dec := %s; k_sp := %s; k_vr := %s; k_vp := %s; k_times := %s; k_now := %s; k_create := %s; k_want := %s; k_locs := %s; k_eid := %s; k_cert_ok := %s; k_obs := %s; k_doc := %s |}",
+	coq := fmt.Sprintf("{| k_id := %s; k_form := %s; k_dec := %s; k_sp := %s; k_vr := %s; k_vp := %s; k_times := %s; k_now := %s; k_create := %s; k_want := %s; k_locs := %s; k_eid := %s; k_cert_ok := %s; k_obs := %s; k_spdoc := %s; k_doc := %s |}",
 		coqgen.Z(int64(id)), coqForm(abs), coqDec(abs.Dec), CoqSP(abs.SP), coqgen.Bool(abs.VR), coqgen.Bool(abs.VP), coqTimes(abs), coqgen.Z(abs.Now), create,
-		coqgen.Bytes(s.Want), coqgen.BytesList([]string{SSOLoc, SSOLoc}), coqgen.Bytes(IssuerURL+provider.DefaultMetadataEndpoint), coqgen.Bool(abs.CertOK), coqObs(obs), docTree(abs))
+		coqgen.Bytes(s.Want), coqgen.BytesList([]string{SSOLoc, SSOLoc}), coqgen.Bytes(IssuerURL+provider.DefaultMetadataEndpoint), coqgen.Bool(abs.CertOK), coqObs(obs), st.SPDocTerm(abs.SP), docTree(abs))
 	return &Exec{S: s, Built: built, Abs: abs, Rep: rep, Obs: obs, Now: now, Coq: coq, bench: b}, nil
 }
 
